@@ -7,7 +7,7 @@ import "verifharness/explore"
 // C09 and C14 need the instrumented build (bin/check.sh builds it with the overlay produced by
 // vinstr and the build tag verifinstr); in the plain binary they are placeholders.
 func init() {
-	for _, id := range []string{"C09", "C14"} {
+	for _, id := range []string{"C09", "C14"} { // C12 also runs on the plain build (without its poll sweep)
 		id := id
 		register(&explore.Prop{ID: id, Level: levelMC, Instr: true, Run: func(c *explore.Ctx) {
 			c.R.Error = id + " needs the instrumented build (use bin/check.sh)"
